@@ -22,10 +22,6 @@ def main():
     exe = vlib.build_harness("C01")
     model = vlib.build_model("C01")
     S = sc.Session(ck, exe, model)
-    if ck.args.replay:
-        import json
-        rp = json.load(open(ck.args.replay))
-        print("replay: re-run the recorded LP with ./check C01 after placing it in corpus/C01/ (lp text in the replay file)")
     nlp, ncfg, nmax = (110, 4, 12) if ck.tier == "quick" else (2500, 8, 30)
     r = ck.rng
     lps = []
@@ -38,6 +34,11 @@ def main():
         else:
             lps.append(lpgen.gen_lp(r, nmax))
     corpus = lpgen.load_corpus("C01")
+    if ck.args.replay:
+        import json
+        rp = json.load(open(ck.args.replay))
+        corpus = [(lpgen.parse_lp_text(rp["lp"]), [rp.get("config", {})])]
+        lps = []
     lps = [c[0] for c in corpus] + lps
     classes, exs = S.classify(lps)
     cfgs = {k: [{}] + [lpgen.rand_config(r) for _ in range(ncfg)] for k in range(len(lps))}
